@@ -170,14 +170,14 @@ def step (line : String) : String :=
     match parseOOps ops, parseScript sc with
     | some ops, some sc =>
       if fl ≠ "s" ∧ fl ≠ "n" then "bad-op" else
-      match runOOps 0 ⟨[], 0, 0, fl = "n"⟩ ops ⟨sc, []⟩ with
+      match runOOps 0 (OStream.init (fl = "n")) ops ⟨sc, []⟩ with
       | ((e, idx), o, os) => "rc=" ++ errCode e ++ "@" ++ toString idx ++ " " ++ showOstream o ++ tail os
     | _, _ => "bad-op"
   | ["istream", b, fl, d, ops, sc] =>
     match b.toNat?, parseData d, parseOps ops, parseScript sc with
     | some B, some data, some ops, some sc =>
       if (fl ≠ "s" ∧ fl ≠ "n") ∨ B = 0 then "bad-op" else
-      match runOps (fileStream B) ⟨IStream.init data, ⟨[], 0, 0, fl = "n"⟩, 0⟩ ops ⟨sc, []⟩ with
+      match runOps (fileStream B) ⟨IStream.init data, OStream.init (fl = "n"), 0⟩ ops ⟨sc, []⟩ with
       | (obs, c, os) =>
         " ".intercalate (obs.map showObs) ++ (if obs.isEmpty then "" else " ") ++
         "st=" ++ (if c.s.eof then "1" else "0") ++ "," ++ toString c.s.off ++ "," ++ toString c.s.buf.length ++
@@ -189,7 +189,7 @@ def step (line : String) : String :=
       if (fl ≠ "s" ∧ fl ≠ "n") ∨ B = 0 then "bad-op" else
       let limit := 4 * data.length + 1000
       match runOps (xfrmStream (fileStream B) toyCodec BX limit)
-          ⟨⟨IStream.init data, 0, 0, []⟩, ⟨[], 0, 0, fl = "n"⟩, 0⟩ ops ⟨sc, []⟩ with
+          ⟨⟨IStream.init data, 0, 0, []⟩, OStream.init (fl = "n"), 0⟩ ops ⟨sc, []⟩ with
       | (obs, c, os) =>
         " ".intercalate (obs.map showObs) ++ (if obs.isEmpty then "" else " ") ++
         "xst=" ++ toString c.s.off ++ "," ++ toString c.s.buf.length ++ "," ++ toString c.s.k ++
@@ -203,7 +203,7 @@ def step (line : String) : String :=
       if B = 0 then "bad-op" else
       let limit := 4 * data.length + 1000
       match runOps (xfrmStream (Sqfs.IoLoops.Spec.idealStream B data) toyCodec BX limit)
-          ⟨⟨⟨0, 0⟩, 0, 0, []⟩, ⟨[], 0, 0, false⟩, 0⟩ ops OS.full with
+          ⟨⟨⟨0, 0⟩, 0, 0, []⟩, OStream.init false, 0⟩ ops OS.full with
       | (obs, c, _) =>
         " ".intercalate (obs.map showObs) ++ (if obs.isEmpty then "" else " ") ++
         "out=" ++ dtok c.o.out ++ " ln=" ++ toString c.ln
@@ -213,7 +213,7 @@ def step (line : String) : String :=
     | some BX, some ops, some sc =>
       if fl ≠ "s" ∧ fl ≠ "n" then "bad-op" else
       let limit := 4 * (ops.map fun o => (oopLen o)).sum + 1000
-      match xRunOOps toyCodec BX limit 0 ⟨⟨[], 0, 0, fl = "n"⟩, 0, []⟩ ops ⟨sc, []⟩ with
+      match xRunOOps toyCodec BX limit 0 ⟨OStream.init (fl = "n"), 0, []⟩ ops ⟨sc, []⟩ with
       | ((e, idx), x, os) =>
         "rc=" ++ errCode e ++ "@" ++ toString idx ++ " inbuf=" ++ toString x.inbuf.length ++ " k=" ++ toString x.k ++
         " " ++ showOstream x.o ++ tail os
@@ -222,7 +222,7 @@ def step (line : String) : String :=
     match b.toNat?, parseData d, parseOps ops with
     | some B, some data, some ops =>
       if B = 0 then "bad-op" else
-      match runOps (Sqfs.IoLoops.Spec.idealStream B data) ⟨⟨0, 0⟩, ⟨[], 0, 0, false⟩, 0⟩ ops OS.full with
+      match runOps (Sqfs.IoLoops.Spec.idealStream B data) ⟨⟨0, 0⟩, OStream.init false, 0⟩ ops OS.full with
       | (obs, c, _) =>
         " ".intercalate (obs.map showObs) ++ (if obs.isEmpty then "" else " ") ++
         "out=" ++ dtok c.o.out ++ " ln=" ++ toString c.ln
